@@ -9,6 +9,5 @@ func exceptionTable() []*Exception {
 		{Rule: "R27", Func: "memdb.hIncrByHash", Construct: "no db.Set before an error reply", Reason: freshHash},
 		{Rule: "R27", Func: "memdb.hIncrByFloatHash", Construct: "no db.Set before an error reply", Reason: freshHash},
 		{Rule: "R1", Func: "(*memdb.Locks).*", Construct: "index recv.locks[t_[*]]", Reason: multi},
-		{Rule: "R1", Func: "(*memdb.Locks).sortedLockPoses", Construct: "index t_[t_]", Reason: "poses has len(set) elements and the loop ranges over the same set, writing one element per map entry (i counts the iterations)"},
 	}
 }
